@@ -221,4 +221,10 @@ def gen_plan(pid, seed, idx, profile):
         if aligned and disturbed and j < nops - 1:
             inst_list = instants(plan, horizon)
     plan["until"] = round(max(8.0, t + 3.0), 6)
+    # a window in which sendto() fails (the transport reports it through error_received() and returns): drawn from a
+    # stream of its own, after everything else, so that the rest of the plan is what it was without the fault
+    r2 = rng(seed, pid, idx, "senderr")
+    if r2.random() < 0.2:
+        t0 = round(r2.choice([0.0, r2.uniform(0.0, 4.0)]), 3)
+        cfg["send_errors"] = [{"t0": t0, "t1": round(t0 + r2.choice([0.05, 0.5, 3.0, 10.0]), 3), "rate": r2.choice([0.3, 1.0])}]
     return plan
